@@ -825,7 +825,7 @@ def c14(ctx, rep):
     sub = Report("C18", quiet=True)
     c18(ctx, sub, with_k3=False)
     for o in sub.obligations:
-        if o["clause"] in ("C18.valid-alphabet", "C18.validated-before-tables", "C18.validated-before-indexing", "C18.refusal", "C18.raises-valueerror-only", "C18.extra-total", "C18.alpha-num-inverse", "C18.gap-decode-guard", "C18.decode-prelude", "C18.decode-chain", "C18.decode-result", "C18.encode-prefix", "C18.table-read-guarded"):
+        if o["clause"] in ("C18.valid-alphabet", "C18.validated-before-tables", "C18.validated-before-indexing", "C18.refusal", "C18.raises-valueerror-only", "C18.extra-total", "C18.alpha-num-inverse", "C18.gap-decode-guard", "C18.decode-prelude", "C18.decode-chain", "C18.decode-result", "C18.encode-prefix", "C18.table-read-guarded", "C18.encoder-total"):
             rep.ob("C14.K3." + o["clause"].split(".", 1)[1], o["construct"], o["ok"], o["detail"], o["where"], o.get("witness"), key="C14.K3.%s|%s" % (o["clause"].split(".", 1)[1], o["construct"]))
     # the AS map is read with every number the pattern can match (same list), parent directories exist before the output is opened
     from .checks_pipe import import_clauses, c16 as _c16
@@ -1524,6 +1524,10 @@ def _codec_structure(ctx, rep, NUM_ALPHA, EXTRA, ENCODING, fixedc):
         for path in A.paths(f).paths:
             if path.kind == "raise":
                 rep.ob("C18.raises-valueerror-only", f.name, show(path.result[1]).startswith("ValueError"), "raise %s" % show(path.result[1])[:60], W(f, path.result[2]), nontrivial=False)
+                # "encrypting ANY plaintext under ANY salt yields ...": the encoder side has no refusal at all
+                if f.name in ("juniper_nonrandom_encrypt", "_gap_encode", "_fixedc") or (f.name not in ("juniper_decrypt", "_gap_decode", "_gap", "_nibble") and any(f in cs.funcs() for cs in G.by_owner.get(f_enc.qualname, []))):
+                    rep.fail("C18.encoder-total", f.name, "the encoder side raises (%s under %s): encryption is refused for some plaintext or salt" % (show(path.result[1])[:60], path.describe()[:100]), W(f, path.result[2]),
+                             key="C18.encoder-total|%s" % f.name)
 
 
 CHECKS = {"C13": c13, "C14": c14, "C18": c18}
